@@ -102,6 +102,8 @@ type behaviour struct {
 	emptyFirst bool
 	// via: how bytes are handed to the response (0 Write, 1 io.Copy, 2 io.WriteString)
 	via int
+	// mount: the handler delegates to an inner Mux with its own writer and request
+	mount bool
 	// flushFirst: the handler flushes before anything else (1 Flush, 2 FlushError),
 	// which commits the implicit 200; only with status == 0
 	flushFirst int
@@ -121,6 +123,8 @@ type request struct {
 	tid     string
 	// nested: served from inside this request's handler, on the same goroutine
 	nested *request
+	// inInner: the request has been handed to the mounted inner Mux (C15)
+	inInner bool
 }
 
 type simResponse struct {
@@ -197,6 +201,7 @@ type world struct {
 	hist    []string
 	lkind   int
 	liveMux *httpd.Mux
+	inner   *httpd.Mux // mounted below handlers in C15
 }
 
 func (w *world) violate(prop, class, detail string) {
@@ -776,10 +781,20 @@ func (w *world) raise(r *request) {
 
 func (w *world) c15Handler(store *httpd.Store) {
 	r := w.reqOf(store, w.byHdr)
-	r.tid = strings.Clone(store.GetID())
-	r.obs.Handlers++
+	if !r.inInner {
+		r.tid = strings.Clone(store.GetID())
+		r.obs.Handlers++
+	}
 	b := r.beh
 	r.resp.fail = b.failBody
+	if b.mount && !r.inInner {
+		// a mounted sub-router: the handler hands its own ResponseWriter and
+		// request to another Mux, whose handler does everything else
+		simrt.Probe("mounted_sub_router")
+		r.inInner = true
+		w.inner.ServeHTTP(store.W, store.R)
+		return
+	}
 	if w.sink != nil && w.sink.slow {
 		// storm: every handler first waits for the same slow backend, so they
 		// all come back - and most of them fail - at about the same time
@@ -864,6 +879,9 @@ func (w *world) mainC15() {
 	mux := httpd.NewMux()
 	mux.HandleRelay(l.Relay)
 	mux.HandleNoRoute(w.c15Handler)
+	w.inner = httpd.NewMux()
+	w.inner.HandleNoRoute(w.c15Handler)
+	w.inner.Handle("/s", "GET", w.c15Handler)
 	for _, rt := range routePool[:6] {
 		mux.Handle(rt.path, rt.method, w.c15Handler)
 	}
@@ -893,6 +911,7 @@ func (w *world) mainC15() {
 				b.emptyFirst = true
 			}
 			b.via = ch("beh.via", 3)
+			b.mount = ch("beh.mount", 6) == 5
 			if b.status == 0 && ch("beh.flush_first", 4) == 0 {
 				b.flushFirst = 1 + ch("beh.flush_kind", 2)
 			}
